@@ -138,13 +138,19 @@ int assemble_string_counting_chunks(assemblyline_t al, char *str,
 
 int asm_assemble_string_counting_chunks(assemblyline_t al, char *str,
                                         int chunk_size, int *dest) {
+  // the counting mode and chunk size only apply to this call
+  ASM_MODE saved_mode = al->assembly_mode;
+  size_t saved_chunk_size = al->chunk_size;
   al->assembly_mode = CHUNK_COUNT;
   if (chunk_size < 2)
     al->assembly_mode = ASSEMBLE;
-  al->chunk_size = chunk_size;
+  else
+    al->chunk_size = chunk_size;
   check_buffer_len(al->buffer_len);
   // assemble string containing x64 assembly code
   int new_offset = assemble_all(al, str, dest);
+  al->assembly_mode = saved_mode;
+  al->chunk_size = saved_chunk_size;
   // keep the previous offset on failure: the instance stays usable
   FAIL_IF(new_offset == ASM_ERROR);
   al->offset = new_offset;
